@@ -85,6 +85,11 @@ func init() {
 					}
 					i++
 					data := map[string]interface{}{"Req": &RReq{Id: int64(c*100000 + i), Flag: i%3 != 0}}
+					if i%11 == 0 {
+						data = map[string]interface{}{} // a request that injects nothing (its rules fail on Req): it still gets a snapshot of its own
+					} else if i%13 == 0 {
+						data = nil
+					}
 					m = nil
 					switch i % 9 {
 					case 0:
